@@ -287,7 +287,14 @@ class EnvWizard(AbstractEnvWizard):
                             var_name = name
                             part = f'({name} := get_env(_var_name))'
 
-                        fn_gen.add_line(f'_name={name!r}; _env_var={env_var!r}; _var_name=f"{{_env_prefix}}{var_name}" if _env_prefix else {var_name!r}')
+                        if var_name.__class__ is str:
+                            prefixed = f'f"{{_env_prefix}}{var_name}"'
+                        else:
+                            # a sequence of variable names: the prefix
+                            # applies to each one of them.
+                            prefixed = f'[f"{{_env_prefix}}{{v}}" for v in {var_name!r}]'
+
+                        fn_gen.add_line(f'_name={name!r}; _env_var={env_var!r}; _var_name={prefixed} if _env_prefix else {var_name!r}')
 
                         with fn_gen.if_(f'{name} is not MISSING or {part} is not MISSING'):
                             parser_name = f'_parser_{name}'
